@@ -393,6 +393,24 @@ func (e *Engine) verifyCasePred(c *Contract, combo []caseChoice, selRet, selPred
 			}
 		}
 	}
+	if contains(c.Properties, "C19") && strings.Contains(c.PkgPath, "/stdlib/") {
+		// module functions: a size that is not a constant must stay below 2 GiB
+		// (the limit the repaired builtin repeat uses) or within an argument's length
+		x.allocChecked = true
+		x.allocLimit = 1<<31 - 1
+		for i, p := range h.Params {
+			if t, ok := args[i].(*Term); ok {
+				switch p.Type().Underlying().(type) {
+				case *types.Slice:
+					x.availLens = append(x.availLens, x.w.sLen(t))
+				case *types.Basic:
+					if t.sort == SStr {
+						x.availLens = append(x.availLens, x.w.strLen(t))
+					}
+				}
+			}
+		}
+	}
 	x.assumeConstTables(st, c.PkgPath)
 	x.callFunction(h, args, nil, st)
 	res.Obls = x.obls
